@@ -83,6 +83,12 @@ where
             // For messages that are too large to fit within the maximum frame size, additional
             // data MAY be trans- ferred in additional transfer frames by setting the more flag on
             // all but the last transfer frame
+            //
+            // Like the frames in the middle, the last frame is a continuation: it must not
+            // carry the delivery-tag again, or the session would assign it a new delivery-id
+            transfer.delivery_tag = None;
+            transfer.message_format = None;
+            transfer.settled = None;
             transfer.more = false;
             send_transfer(
                 writer,
